@@ -4,8 +4,10 @@
    PARTIAL.  Proved: the tokenizer never returns an error value and panics only with the explicit panic! of the
    unclosed comment block, or (overflow checks on) with the i32 overflow of the comment nesting counter after
    2^31 - 1 unclosed "/*"  (C14_lex_total_partial; the characterisation "the text ends inside a block comment" of
-   DESIGN.md is decided by the check's oracle from the text, not proved).  NOT proved: C14_parse_total (fuel
-   sufficiency = termination of the recursive descent), C14_error_carries_token; the parser, resolver and to_rust
+   DESIGN.md is decided by the check's oracle from the text, not proved); C14_parse_total_partial: tags, SIZE,
+   object identifiers, IMPORTS and ENUMERATED never panic and never run out of fuel, on any token list.
+   NOT proved: fuel sufficiency of the mutually recursive type grammar, of named-number lists, literals and WITH
+   COMPONENTS, and of the module loop (C14_parse_total of DESIGN.md); C14_error_carries_token; the parser, resolver and to_rust
    outcome classes are tied to the crate differentially on every generated input (op 3303), where fuel
    exhaustion would appear as the answer -3.
    Refuted: conversion to the Rust model does not return on a cycle of untagged type references / CHOICE
@@ -19,6 +21,35 @@ Theorem C14_lex_total_partial : forall m s,
   (forall p, tokenize m s = Panic p -> p = P_OTHER \/ (p = P_ARITH /\ overflow_checks m = true)) /\
   (forall e, tokenize m s <> Err e).
 Proof. exact tokenize_outcomes. Qed.
+
+(* [safe r]: r is a value or an error value -- neither a panic nor fuel exhaustion.
+   Totality of the productions without recursion into the type grammar, for EVERY token list: tags, "[tag] word",
+   SIZE, object identifiers, IMPORTS, ENUMERATED.  Their loops run on fuel S (length tokens): the proofs show that
+   every iteration consumes a token, which is the termination argument of the corresponding Rust loops. *)
+Theorem C14_parse_total_partial : forall ts,
+  safe (read_tag ts) /\ safe (next_with_opt_tag ts) /\ safe (read_size ts) /\ safe (maybe_read_size ts) /\
+  safe (read_oid ts) /\ safe (maybe_read_oid ts) /\ safe (read_imports ts) /\ safe (read_enumerated ts).
+Proof.
+  intros ts. repeat split.
+  - apply safe_read_tag.
+  - apply safe_next_with_opt_tag.
+  - apply safe_read_size.
+  - apply safe_maybe_read_size.
+  - apply safe_read_oid.
+  - apply safe_maybe_read_oid.
+  - apply safe_read_imports.
+  - apply safe_read_enumerated.
+Qed.
+
+Theorem C14_safe_means : forall (A : Type) (r : pres A),
+  safe r <-> (forall p, r <> PPanic p) /\ r <> POutOfFuel.
+Proof.
+  intros A [a | k t | p |]; cbn [safe]; split; try tauto.
+  - intros _. split; [intros p H | intros H]; discriminate.
+  - intros _. split; [intros p H | intros H]; discriminate.
+  - intros [H _]. apply (H p). reflexivity.
+  - intros [_ H]. apply H. reflexivity.
+Qed.
 
 Definition txt (s : string) : list Z := map Z.of_N (s2n s).
 
@@ -44,5 +75,7 @@ Example C14_nonvacuous :
 Proof. split; vm_compute; reflexivity. Qed.
 
 Print Assumptions C14_lex_total_partial.
+Print Assumptions C14_parse_total_partial.
+Print Assumptions C14_safe_means.
 Print Assumptions C14_refuted_to_rust_unbounded_recursion_on_recursive_untagged_type.
 Print Assumptions C14_refuted_resolver_unbounded_recursion_on_cyclic_import.
